@@ -193,7 +193,7 @@ RunResult run(J const &plan) {
   sim.finish(res);
   res.counters["probe.steps_compared"] += steps_compared;
   res.counters["probe.samples_accumulated"] += samples_total;
-  res.counters["probe.steps_outside_grid"] += out_of_grid;
+  res.counters["probe.steps_outside_grid"] += out_of_grid; res.counters["fault.value_outside_grid"] += out_of_grid; if (ec.forces_late) res.counters["fault.lagged_force_delivery"] += steps_compared;
   res.counters["probe.forces_capped"] += capped;
   res.counters["probe.forces_on_ramp"] += ramped;
   res.nontrivial = steps_compared > 0 && samples_total > 0;
